@@ -158,7 +158,17 @@ func VfC19_EvictStale() {
 	}
 	nd.PanicLabel("evict-stale")
 	nd.Class("halving-breaks-order", true)
+	// a HOTKEY reader holds the report it was given (HotKeys returns the slice, the reader walks
+	// it without the lock): the entries it sees must not change under it
+	held := c.HotKeys()
+	heldNames := make([]string, len(held))
+	for i := range held {
+		heldNames[i] = held[i].Name
+	}
 	c.evictStale()
+	for i := range held {
+		nd.Assert(held[i].Name == heldNames[i], "a report handed to a reader is not rewritten by a later decay pass (the reader never sees a key twice or misses one)")
+	}
 	got := c.HotKeys()
 	nd.Assert(len(got) <= n, "decay never adds keys")
 	for i := range got {
@@ -191,7 +201,15 @@ func VfC19_Collect() {
 	nd.PanicLabel("collect")
 	rounds := nd.Concrete(nd.IntRange("rounds", 1, 2))
 	for r := 0; r < rounds; r++ {
+		held := c.HotKeys()
+		heldNames := make([]string, len(held))
+		for i := range held {
+			heldNames[i] = held[i].Name
+		}
 		c.collect()
+		for i := range held {
+			nd.Assert(held[i].Name == heldNames[i], "a report handed to a reader is not rewritten by a later collection")
+		}
 		if r == 0 && rounds == 2 {
 			c1.Incr("d")
 			accessed["d"] = true
